@@ -735,7 +735,7 @@ End Processor.
 
 (* ---------------------------------------------------------------------- *)
 (* the toy compressor of the component harness (props/C08/h_dedup.c implements the same):
-   a block of n >= 5 equal bytes x becomes [x; n as le24]; nothing else shrinks *)
+   a block of 5 <= n < 2^24 equal bytes x becomes [x; n as le24]; nothing else shrinks *)
 
 Fixpoint all_eq (x : N) (l : list N) : bool :=
   match l with
@@ -748,7 +748,7 @@ Definition toy_compress (b : list N) : option (list N) :=
   | [] => None
   | x :: r =>
     let n := N.of_nat (length b) in
-    if (5 <=? length b) && all_eq x r then
+    if (5 <=? length b) && N.ltb n 16777216 && all_eq x r then
       Some [x; (n mod 256)%N; ((n / 256) mod 256)%N; ((n / 65536) mod 256)%N]
     else None
   end.
